@@ -179,10 +179,25 @@ def border_queries(paths, bins, reverse):
     return [(x, y) for x in xs for y in ys]
 
 
+def _scaled(paths, queries, scale):
+    """The same geometry in other units (a power of two keeps every coordinate exact): a
+    length compared with a squared length, or an absolute threshold, shows at some scales only."""
+    if scale == 1:
+        return paths, queries
+    return (tuple(((a[0] * scale, a[1] * scale), (b[0] * scale, b[1] * scale)) for a, b in paths),
+            [(q[0] * scale, q[1] * scale) for q in queries])
+
+
 def _chunk(args):
-    items, bins_list, queries, with_borders = args
+    items, bins_list, queries, with_borders = args[:4]
+    scale = args[4] if len(args) > 4 else 1
     part = core.Part()
+    if scale != 1:
+        # extra query points at sub-cell offsets (clearances well below one unit)
+        queries = queries + [(x + 0.3, y + 0.45) for x in (0, 1) for y in (0, 1)]
     for paths in items:
+        paths, queries_s = _scaled(paths, queries, scale)
+        queries_saved, queries = queries, queries_s
         for reverse in (False, True):
             if not has_extent(paths, reverse):
                 part.count("skipped_zero_extent")
@@ -192,6 +207,7 @@ def _chunk(args):
                 if with_borders:
                     qry = queries + border_queries(paths, bins, reverse)
                 explore_index(paths, bins, reverse, qry, part)
+        queries = queries_saved
     if items:
         part.sample({"paths": [[list(p[0]), list(p[1])] for p in items[len(items) // 2]],
                      "bins_per_side": bins_list, "reverse": [False, True],
@@ -256,12 +272,28 @@ def _big_job(args):
     return part
 
 
+def fine_sets():
+    """Sub-unit geometry around a cell wall: a frame path fixes the extent to the unit square
+    (walls at 1/2 for 2 and 4 bins); a second path has both ends on a fine lattice straddling
+    the wall; queries on a finer lattice around it.  Distances and wall clearances are all well
+    below 1, where a squared length and a length order differently."""
+    frame = ((0.0, 0.0), (1.0, 1.0))
+    fine = [(0.40625 + 3 * i / 64, 0.40625 + 3 * j / 64) for i in range(5) for j in range(5)]
+    return [(frame, (a, b)) for a in fine for b in fine]
+
+
+FINE_QUERIES = [(0.40625 + i / 64, 0.40625 + j / 64) for i in range(0, 13, 1) for j in range(0, 13, 2)]
+
+
 def run(ctx):
     all_paths = [(a, b) for a in LATTICE for b in LATTICE]          # 81 (start, end) pairs
     queries = [(x, y) for x in QUERY_COORDS for y in QUERY_COORDS]
     jobs = []
     ones = [(p,) for p in all_paths]
     jobs += [(chunk, [1, 2, 3, 4, 5], queries, True) for chunk in core.split(ones, 8)]
+    for scale in (0.125, 16):
+        jobs += [(chunk, [1, 2, 3, 4], queries, False, scale) for chunk in core.split(ones, 8)]
+    jobs += [(chunk, [2, 4], FINE_QUERIES, False) for chunk in core.split(fine_sets(), 48)]
     twos = [(p, q) for p in all_paths for q in all_paths]
     few_q = [(x, y) for x in (-1, 0, 0.5, 1, 1.5, 2, 3) for y in (-1, 0, 0.5, 1, 1.5, 2, 3)]
     jobs += [(chunk, [1, 2, 3, 4], few_q if not ctx.thorough else queries, False)
@@ -299,7 +331,9 @@ def run(ctx):
                 "side x reverse in {False, True}; per index every removal order; in every "
                 "distinct removed-set state nearest() for the query lattice (inside, on and "
                 "outside the grid, cell borders); states reached by different orders compared "
-                "field by field; 3 (4) layouts of 41..150 (400) paths x bins {3,6,10,13} x reverse x "
+                "field by field; the one-path sets again scaled by 1/8 and by 16; 625 two-path sets "
+                "with ends on a 3/64 lattice straddling a cell wall queried on a 1/64 lattice; "
+                "3 (4) layouts of 41..150 (400) paths x bins {3,6,10,13} x reverse x "
                 "three removal orders queried after every removal; non-trivial = indexes with "
                 "more than one candidate end",
         "samples": core.rotate(part.samples, ctx.seed, 4),
